@@ -69,7 +69,21 @@ var presentCounter uint32
 func observeHeader(h []byte) map[string]interface{} {
 	prof := append(append([]byte{}, h...), 0, 0, 0, 1, 'c', 'p', 'r', 't', 0, 0, 0, 144, 0, 0, 0, 4, 1, 2, 3, 4)
 	ev := map[string]interface{}{"kind": "hdr", "hdr": ints(h)}
-	rd, how := present(prof, int(atomic.AddUint32(&presentCounter, 1)))
+	n := int(atomic.AddUint32(&presentCounter, 1))
+	if n%19 == 7 {
+		// the same ProfileReader asked again, after a first call that found its source still empty
+		var buf bytes.Buffer
+		pr := icc.NewProfileReader(&buf)
+		if _, err := pr.ReadProfile(); err == nil {
+			ev["reader"] = "bytes.Buffer/empty"
+			return headerEvent(ev, nil, fmt.Errorf("ReadProfile succeeded on an empty source"))
+		}
+		buf.Write(prof)
+		ev["reader"] = "bytes.Buffer/second call after an empty first"
+		p, err := pr.ReadProfile()
+		return headerEvent(ev, p, err)
+	}
+	rd, how := present(prof, n)
 	ev["reader"] = how
 	p, err := icc.NewProfileReader(rd).ReadProfile()
 	return headerEvent(ev, p, err)
